@@ -39,6 +39,8 @@ type checkSpec struct {
 // Budgets live here (driver side) so that tiers can be tuned without touching
 // the scenarios.
 var specs = map[string]*checkSpec{
+	"C06": {Property: "C06", Level: "exploration", Runs: map[string]int{"quick": 30000, "thorough": 1000000}, Wall: map[string]int{"quick": 50, "thorough": 1500}},
+	"C07": {Property: "C07", Level: "exploration", Runs: map[string]int{"quick": 20000, "thorough": 600000}, Wall: map[string]int{"quick": 50, "thorough": 1500}},
 	"C10": {Property: "C10", Level: "exploration", Runs: map[string]int{"quick": 12000, "thorough": 400000}, Wall: map[string]int{"quick": 50, "thorough": 1500}},
 }
 
@@ -210,11 +212,21 @@ func main() {
 func cmdReplay(args []string) {
 	fs := flag.NewFlagSet("replay", flag.ExitOnError)
 	times := fs.Int("times", 1, "repetitions")
-	fs.Parse(args)
-	if fs.NArg() < 1 {
+	// accept flags before or after the file
+	var file string
+	var rest []string
+	for i := 0; i < len(args); i++ {
+		if !strings.HasPrefix(args[i], "-") && file == "" {
+			file = args[i]
+		} else {
+			rest = append(rest, args[i])
+		}
+	}
+	fs.Parse(rest)
+	if file == "" {
 		infra("replay needs a file")
 	}
-	path, _ := filepath.Abs(fs.Arg(0))
+	path, _ := filepath.Abs(file)
 	b, err := os.ReadFile(path)
 	if err != nil {
 		infra("cannot read %s: %v", path, err)
